@@ -3,18 +3,24 @@
 # Runs a check against a seeded change in complete isolation: a scratch worktree of /repo with the patch
 # applied, and a private copy of the harness pointing at it. /repo and /verif/evidence are not touched.
 set -u
+exec < /dev/null
+sleep $(( RANDOM % 25 ))   # stagger parallel starts
 NAME=$1; PROP=$2; TIER=${3:-quick}
-R=/tmp/evr-$NAME; H=/tmp/evh-$NAME; E=/verif/seeded/$NAME
+R=/tmp/evr-$NAME-$$; H=/tmp/evh-$NAME-$$; E=/verif/seeded/$NAME; EV=${EVALDIR:-eval}
 git -C /repo worktree remove --force $R >/dev/null 2>&1; rm -rf $R $H
 git -C /repo worktree add -q --detach $R HEAD || exit 2
 ( cd $R && (git apply $E/patch.diff || git apply -3 $E/patch.diff || patch -p1 -F3 -s < $E/patch.diff) ) || { echo "patch does not apply"; exit 2; }
-mkdir -p $H $E/eval
-rsync -a --exclude target /verif/harness/ $H/
+mkdir -p $H $E/$EV
+rsync -a --exclude target ${VERIF_SNAP:-/verif}/harness/ $H/
 grep -rl "/repo/" $H --include=Cargo.toml --include=*.rs --include=config.toml | xargs sed -i "s|/repo/|$R/|g"
 cp $R/Cargo.lock $H/Cargo.lock 2>/dev/null
-cd /verif
-VERIF_REPO=$R VERIF_HARNESS=$H VERIF_EVID=$E/eval VERIF_REPLAYS=$E/eval timeout 3000 ./bin/check $PROP --tier $TIER > $E/eval/check-$PROP-$TIER.out 2>&1
-RC=$?
-V=$(grep -c "^VIOLATION" $E/eval/check-$PROP-$TIER.out)
-echo "{\"seed\":\"$NAME\",\"check\":\"$PROP\",\"tier\":\"$TIER\",\"rc\":$RC,\"violation_lines\":$V}" | tee $E/eval/result-$PROP-$TIER.json
+cd ${VERIF_SNAP:-/verif}
+for attempt in 1 2 3; do
+  VERIF_REPO=$R VERIF_HARNESS=$H VERIF_EVID=$E/$EV VERIF_REPLAYS=$E/$EV timeout 3000 ./bin/check $PROP --tier $TIER > $E/$EV/check-$PROP-$TIER.out 2>&1
+  RC=$?
+  if [ $RC -eq 2 ] && grep -q "failed to run .rustc. to learn" $E/$EV/check-$PROP-$TIER.out; then sleep 15; continue; fi
+  break
+done
+V=$(grep -c "^VIOLATION" $E/$EV/check-$PROP-$TIER.out)
+echo "{\"seed\":\"$NAME\",\"check\":\"$PROP\",\"tier\":\"$TIER\",\"rc\":$RC,\"violation_lines\":$V}" | tee $E/$EV/result-$PROP-$TIER.json
 git -C /repo worktree remove --force $R >/dev/null 2>&1; rm -rf $R $H
